@@ -160,6 +160,13 @@ def parse_operand(p, ty):
     if p.eat("bitcast"):
         p.expect("("); st = parse_type(p); v = parse_operand(p, st); p.expect("to"); parse_type(p); p.expect(")")
         return v
+    if p.eat("inttoptr"):
+        # constant expression, e.g. the `inttoptr (i64 3 to i8*)` sentinels of libstdc++/nunavut variant code
+        p.expect("("); st = parse_type(p); v = parse_operand(p, st); p.expect("to"); parse_type(p); p.expect(")")
+        return ("cinttoptr", v)
+    if p.eat("ptrtoint"):
+        p.expect("("); st = parse_type(p); v = parse_operand(p, st); p.expect("to"); dt = parse_type(p); p.expect(")")
+        return ("cptrtoint", v, dt)
     if (mm := p.rx(r'c"((?:[^"\\]|\\[0-9A-Fa-f]{2}|\\\\)*)"')):
         raw = mm.group(1); out = []; i = 0
         while i < len(raw):
@@ -302,6 +309,7 @@ def parse_module(text):
         line = re.sub(r"\s#\d+\s*$", "", line)
         s = line.strip()
         if not s: continue
+        if "@llvm.experimental.noalias.scope.decl" in s or "@llvm.dbg." in s: continue     # metadata-only intrinsics
         if cur is None:
             mm = re.match(r'%("[^"]*"|[\w.$-]+) = type (.*)$', s)
             if mm:
@@ -480,7 +488,10 @@ class Engine:
         n = sizeof(s.m, ty); bs = s.load_bytes(st, p, n)
         for k, b in enumerate(bs):
             if b is None:
-                raise Violation("uninit-read", f"load {ty} from {st.objs[p.obj].name}+{p.off}+{k}", list(st.pc))
+                # An indeterminate byte.  Merely copying it (struct copies lowered to integer loads, inactive union bytes, padding) is
+                # benign; it becomes an obligation failure only when it reaches a branch, an address or a size (see uses_uninit).
+                s.fresh += 1; s.has_uninit = True
+                bs[k] = z3.BitVec(f"uninit{s.fresh}", 8)
         if isinstance(ty, (ArrT, StructT)): raise Unsupported("aggregate load")
         bits = ty.bits
         if all(is_c(b) for b in bs):
@@ -495,7 +506,9 @@ class Engine:
         if isinstance(ty, PtrT):
             o, off = s._obj(st, p, 8, True, "store ptr")
             if not is_c(off): raise Unsupported("symbolic pointer store")
-            for k in range(8): o.data[off + k] = 0 if v.obj == 0 else 0xAA
+            for k in range(8):
+                o.data[off + k] = 0 if v.obj == 0 else 0xAA
+                o.ptrs.pop(off + k, None)          # a stored null must not leave a stale pointer behind
             if v.obj != 0: o.ptrs[off] = v
             return
         n = sizeof(s.m, ty); bits = ty.bits
@@ -528,6 +541,12 @@ class Engine:
             _, bt, base, idx = opd
             return s.gep(st, fr, bt, s.val(st, fr, None, base), idx, True)
         if k == "zero": return 0
+        if k == "cinttoptr":
+            x = s.val(st, fr, IntT(64), opd[1])
+            return Ptr(x >> 40, x & mask(40)) if is_c(x) else (_ for _ in ()).throw(Unsupported("inttoptr of a symbolic constant expression"))
+        if k == "cptrtoint":
+            x = s.val(st, fr, None, opd[1])
+            return Engine.add64((x.obj << 40), x.off) if isinstance(x, Ptr) else x
         raise Unsupported(f"operand {opd}")
     def global_ptr(s, st, name):
         if name in s.m.funcs or name in s.m.decls: return ("fn", name)
@@ -757,6 +776,7 @@ class Engine:
                 c = s.i2b(s.val(st, fr, IntT(1), a[0])); split_after = False
                 if c is True or c is False: tgt = a[1] if c else a[2]
                 else:
+                    if s.uses_uninit(c): raise Violation("uninit-use", f"branch in {fr.fn.name} depends on an uninitialised value", list(st.pc))
                     t_ok = s.sat(st, c); f_ok = s.sat(st, z3.Not(c))
                     if t_ok and f_ok:
                         s.stats["forks"] += 1
@@ -823,10 +843,16 @@ class Engine:
                 if fr.ret_dst is not None: st.frames[-1].regs[fr.ret_dst] = rv
             elif op == "unreachable": raise Violation("unreachable-reached", fr.fn.name, list(st.pc))
             else: raise Unsupported(op)
+    has_uninit = False
+    def uses_uninit(s, e):
+        if not s.has_uninit or is_c(e) or isinstance(e, bool): return False
+        from z3.z3util import get_vars
+        return any(str(v).startswith("uninit") for v in get_vars(e))
     def concretize(s, st, e):
         """value of e if the path condition determines it uniquely; otherwise NeedConcrete (the caller forks on its feasible values)"""
         e = simp(e)
         if is_c(e): return e
+        if s.uses_uninit(e): raise Violation("uninit-use", "a size or count depends on an uninitialised value", list(st.pc))
         s.stats["solver_calls"] += 1
         s.solver.push(); s.solver.add(*st.pc); r = s.solver.check()
         v = s.solver.model().eval(e, model_completion=True).as_long() if r == z3.sat else None
@@ -871,7 +897,8 @@ class Engine:
             return simp(z3.If(z3.ULT(x, y), x, y) if "umin" in name else z3.If(z3.UGT(x, y), x, y))
         if name == "_Znwm" or name == "malloc":
             n = s.concretize(st, argv[0])
-            return st.new_obj(n, f"heap{st.next_obj}")
+            s.fresh += 1
+            return st.new_obj(n, f"heap{st.next_obj}", [z3.BitVec(f"heapjunk{s.fresh}_{i}", 8) for i in range(n)])
         if name == "_ZdlPv" or name == "free":
             p = argv[0]
             if p.obj == 0: return None
